@@ -23,7 +23,9 @@ def bit (n : Nat) : Bool := n != 0
 /-- address decorations of the harness (`sd<k>`: device part of the server address, `cd<k>`: device part of the client
     address of a request call) do not reach the model: the code as written resolves both by entity and feature only -/
 def isDecor (t : String) : Bool :=
-  (t.startsWith "sd" || t.startsWith "cd") && t.length > 2 && (t.drop 2).all Char.isDigit
+  ((t.startsWith "sd" || t.startsWith "cd") && t.length > 2 && (t.drop 2).all Char.isDigit) ||
+  -- "v<k>": which optional parts a removal entry carries (entity type, device part, description)
+  (t.startsWith "v" && t.length > 1 && (t.drop 1).all Char.isDigit)
 def stripDecor (ws : List String) : List String := ws.filter (!isDecor ·)
 /-- "a,b,c" -> entity addresses -/
 def parseEnts (s : String) : List (List Nat) := (s.splitOn ",").map parseEnt
